@@ -416,6 +416,8 @@ def mk_slice(inner, lo, hi):
     lo, hi = lin_norm(lo), lin_norm(hi)
     if lo == '0':
         lo = ''
+    if isinstance(inner, str) and hi == 'len(%s)' % inner:
+        hi = ''                      # x[a:len(x)] is x[a:]
     if isinstance(inner, list):
         its = merge_consts(inner)
         if len(its) == 1 and its[0][0] == 'SLICE':
@@ -1174,6 +1176,9 @@ class Frame(object):
         path = '%s.%s' % (bt, node.attr)
         if path in st.env:
             return st.env[path]
+        if isinstance(node.value, ast.Name) and node.value.id not in st.env and \
+                self.module.imports.get(node.value.id, (None, 0))[1] is None and node.value.id in self.module.imports:
+            return Sym(path, nonnull=True)          # function / class of an imported module (copy.copy, hashlib.new ...)
         if isinstance(base, Sym) and node.attr in base.attrs:
             return base.attrs[node.attr]
         if isinstance(base, ClassV):
@@ -1426,6 +1431,14 @@ class Frame(object):
         return Sym('(%s + %s)' % (render(l), render(r)))
 
     def binop(self, op, l, r):
+        if isinstance(l, ListV) and isinstance(r, ListV) and l.kind == 'set' and r.kind == 'set' and \
+                isinstance(op, (ast.BitOr, ast.BitAnd, ast.Sub)):
+            lt, rt = [render(e) for e in l.elems], [render(e) for e in r.elems]
+            if isinstance(op, ast.BitOr):
+                return ListV(l.elems + [e for e, t in zip(r.elems, rt) if t not in lt], 'set')
+            if isinstance(op, ast.BitAnd):
+                return ListV([e for e, t in zip(l.elems, lt) if t in rt], 'set')
+            return ListV([e for e, t in zip(l.elems, lt) if t not in rt], 'set')
         if isinstance(op, ast.Mult):
             for a, b in ((l, r), (r, l)):
                 if isinstance(a, Bytes):
@@ -1520,6 +1533,12 @@ class Frame(object):
             recv = self.ev(func.value, st)
             meth = func.attr
             ftext = '%s.%s' % (render(recv), meth)
+            if meth == '__setitem__' and len(node.args) == 2 and not kwargs and not any(isinstance(a, ast.Starred) for a in node.args):
+                # the explicit dunder call is the subscript store
+                fake = ast.copy_location(ast.Subscript(value=func.value, slice=node.args[0], ctx=ast.Store()), node)
+                ast.fix_missing_locations(fake)
+                self.assign(fake, args[1], st, node)
+                return Const(None)
             # int_to_bytes / bytes_to_int are modelled wherever they are reached from (axiom in sa/axioms.py)
             if meth == 'int_to_bytes' and args:
                 record(ftext)
@@ -1701,6 +1720,10 @@ class Frame(object):
             if n in ('iter', 'list', 'tuple') and len(args) == 1 and isinstance(args[0], EachV) and not kwargs:
                 record(n)
                 return args[0]
+            if n in ('frozenset', 'set', 'tuple', 'list') and len(args) == 1 and not kwargs and isinstance(args[0], ListV) and \
+                    not any(isinstance(e, EachV) for e in args[0].elems):
+                record(n)
+                return ListV(list(args[0].elems), 'set' if n in ('frozenset', 'set') else n)
             if n == 'zip' and args and not kwargs and all(isinstance(a, ListV) and not any(isinstance(e, EachV) for e in a.elems) for a in args):
                 record(n)
                 return ListV([ListV(list(t), 'tuple') for t in zip(*[a.elems for a in args])], 'list')
